@@ -156,6 +156,25 @@ def SimFn.test [HasSqrt α] (f : SimFn α) (edges : List (EdgeRec α)) (a b : Li
     | .error k => .error k
     | .ok r => .ok (decide (thr ≤ r))
 
+/-- `RouteSimilarityFunction::rank_similarity(a, b, si)` on edge-id lists: 0 for `AcceptAll`, the
+cosine similarity of the two routes with unit weights or with the edges' lengths -/
+def SimFn.rank [HasSqrt α] (f : SimFn α) (edges : List (EdgeRec α)) (a b : List Nat) :
+    Except ErrKind α :=
+  match f with
+  | .acceptAll => .ok zero
+  | .edgeIdCosine _ => cosSimilarity (fun _ => .ok (one : α)) a b
+  | .distanceWeightedCosine _ =>
+    cosSimilarity (fun e => match edges[e]? with
+                            | some er => .ok er.dist
+                            | none => .error .network) a b
+
+/-- `RouteSimilarityFunction::is_similar(rank)` -/
+def SimFn.isSimilar (f : SimFn α) (r : α) : Bool :=
+  match f with
+  | .acceptAll => false
+  | .edgeIdCosine thr => decide (thr ≤ r)
+  | .distanceWeightedCosine thr => decide (thr ≤ r)
+
 /-! ### `bidirectional_ops` -/
 
 /-- the loop of `reorient_reverse_route`: `EdgeTraversal::forward_traversal(next, prev, acc_state)`
@@ -325,7 +344,7 @@ def singleVia (c : Config α) (gcRev : List α) (sim : List Nat → List Nat →
                   iterations := fwd.iters + rev.iters + it }
 
 /-- the `KspSingleVia` arm of `SearchAlgorithm::run_vertex_oriented`: a destination is required
-(build error), then `KspQuery::new`, then the algorithm; `similarity` / `termination` default to
+(build error), the direction must be `Forward` (build error), then `KspQuery::new`, then the algorithm; `similarity` / `termination` default to
 `AcceptAll` / `Exact` -/
 def singleViaVertex (c : Config α) (gcRev : List α) (sim : List Nat → List Nat → Except ErrKind Bool)
     (term : Option KspTerm) (kDefault : Nat) (queryK : Option Json) (source : Nat)
@@ -333,6 +352,9 @@ def singleViaVertex (c : Config α) (gcRev : List α) (sim : List Nat → List N
   match target with
   | none => .error .build
   | some t =>
+    -- `require_forward(direction)?`: a reverse query is refused, not answered as a forward one
+    if c.reverse then .error .build
+    else
     match kspK queryK kDefault with
     | .error e => .error e
     | .ok k => singleVia c gcRev sim (term.getD .exact) source t k fwdSched revSched pops
@@ -549,6 +571,8 @@ def yensVertex (c : Config α) (sim : List Nat → List Nat → Except ErrKind B
   match target with
   | none => .err .build
   | some t =>
+    if c.reverse then .err .build     -- `require_forward(direction)?`
+    else
     match kspK queryK kDefault with
     | .error e => .err e
     | .ok k => yens c sim (term.getD .exact) source t k scheds
@@ -576,6 +600,240 @@ def runEdgeWithOutcome (c : Config α) (runV : Nat → Option Nat → KspOutcome
                                    | .diverges _ => .error .internal) source target with
     | .ok r => .ok r
     | .error e => .err e
+
+/-! ### configuration: `KspTerminationCriteria`, `RouteSimilarityFunction` and `SearchAlgorithm`
+from the JSON the application deserialises (`get_config_serde` = `serde_json::from_value`) -/
+
+/-- `Display for KspTerminationCriteria` -/
+def KspTerm.display : KspTerm → String
+  | .exact => "terminate with up to k routes found"
+  | .maxIteration max => "terminate with " ++ toString max ++ " routes found"
+  | .factor f => "terminate with k*" ++ toString f ++ " routes found"
+
+/-- what serde's internally tagged enum representation hands to a variant: the fields of the object
+that carried the tag `"type"`, or the elements of the sequence after its first element (the tag) -/
+inductive Content where
+  | fields (kvs : List (String × Json))
+  | seq (xs : List Json)
+
+/-- tag and content of `#[serde(tag = "type")]`: an object whose `"type"` is a string, or a
+sequence whose first element is a string; anything else is a deserialisation error -/
+def tagged (j : Json) : Option (String × Content) :=
+  match j with
+  | .obj kvs =>
+    match Json.lookup kvs "type" with
+    | some (.str t) => some (t, .fields kvs)
+    | _ => none
+  | .arr (.str t :: rest) => some (t, .seq rest)
+  | _ => none
+
+/-- a variant with `n` fields accepts any object (unknown keys are ignored) and a sequence of
+exactly `n` elements -/
+def Content.arity (c : Content) (n : Nat) : Bool :=
+  match c with
+  | .fields _ => true
+  | .seq xs => xs.length == n
+
+/-- a required field: by name in an object, by position in a sequence -/
+def Content.req (c : Content) (name : String) (idx : Nat) : Option Json :=
+  match c with
+  | .fields kvs => Json.lookup kvs name
+  | .seq xs => xs[idx]?
+
+/-- an `Option<_>` field: absent from an object, or `null`, is `None` (`some none`); in a sequence
+the position must exist -/
+def Content.opt (c : Content) (name : String) (idx : Nat) : Option (Option Json) :=
+  match c with
+  | .fields kvs =>
+    match Json.lookup kvs name with
+    | none => some none
+    | some .null => some none
+    | some v => some (some v)
+  | .seq xs =>
+    match xs[idx]? with
+    | none => none
+    | some .null => some none
+    | some v => some (some v)
+
+/-- `serde_json::from_value::<KspTerminationCriteria>`; `none` is the deserialisation error -/
+def KspTerm.ofJson (j : Json) : Option KspTerm :=
+  match tagged j with
+  | none => none
+  | some (tag, c) =>
+    if tag == "exact" then (if c.arity 0 then some .exact else none)
+    else if tag == "max_iteration" then
+      if !c.arity 1 then none
+      else match c.req "max" 0 with
+        | some v => v.asU64?.map .maxIteration
+        | none => none
+    else if tag == "factor" then
+      if !c.arity 1 then none
+      else match c.req "factor" 0 with
+        | some v => v.asU64?.map .factor
+        | none => none
+    else none
+
+/-- `serde_json::from_value::<RouteSimilarityFunction>`; `num` reads an `f64` field (any JSON
+number) -/
+def SimFn.ofJson (num : Json → Option α) (j : Json) : Option (SimFn α) :=
+  match tagged j with
+  | none => none
+  | some (tag, c) =>
+    if tag == "accept_all" then (if c.arity 0 then some .acceptAll else none)
+    else if tag == "edge_id_cosine_similarity" then
+      if !c.arity 1 then none
+      else match c.req "threshold" 0 with
+        | some v => (num v).map .edgeIdCosine
+        | none => none
+    else if tag == "distance_weighted_cosine_similarity" then
+      if !c.arity 1 then none
+      else match c.req "threshold" 0 with
+        | some v => (num v).map .distanceWeightedCosine
+        | none => none
+    else none
+
+/-- `SearchAlgorithm` as configured: `Dijkstra` is `astar (some 0)` (the `Dijkstra` arm runs the A*
+arm with `weight_factor = Some(Cost::ZERO)`) -/
+inductive AlgCfg (α : Type) where
+  | astar (wf : Option α)
+  | singleVia (k : Nat) (under : AlgCfg α) (sim : Option (SimFn α)) (term : Option KspTerm)
+  | yens (k : Nat) (under : AlgCfg α) (sim : Option (SimFn α)) (term : Option KspTerm)
+
+/-- an optional nested configuration value -/
+def optOfJson {β : Type} (f : Json → Option β) (o : Option (Option Json)) : Option (Option β) :=
+  match o with
+  | none => none
+  | some none => some none
+  | some (some v) => (f v).map some
+
+/-- `serde_json::from_value::<SearchAlgorithm>` (`depth` bounds the nesting of `underlying` the
+model follows) -/
+def AlgCfg.ofJson (num : Json → Option α) : Nat → Json → Option (AlgCfg α)
+  | 0, _ => none
+  | depth + 1, j =>
+    match tagged j with
+    | none => none
+    | some (tag, c) =>
+      if tag == "dijkstra" then (if c.arity 0 then some (.astar (some zero)) else none)
+      else if tag == "a*" then
+        if !c.arity 1 then none
+        else (optOfJson num (c.opt "weight_factor" 0)).map .astar
+      else if tag == "ksp_single_via" || tag == "yens" then
+        if !c.arity 4 then none
+        else
+          match c.req "k" 0, c.req "underlying" 1 with
+          | some kj, some uj =>
+            match kj.asU64?, AlgCfg.ofJson num depth uj,
+                  optOfJson (SimFn.ofJson num) (c.opt "similarity" 2),
+                  optOfJson KspTerm.ofJson (c.opt "termination" 3) with
+            | some k, some u, some sim, some term =>
+              if tag == "yens" then some (.yens k u sim term) else some (.singleVia k u sim term)
+            | _, _, _, _ => none
+          | _, _ => none
+      else none
+
+/-- the `weight_factor` in force: the query's when present (`as_f64`, otherwise a build error),
+else the configured one -/
+def effectiveWf (num : Json → Option α) (queryWf : Option Json) (cfgWf : Option α) :
+    Except ErrKind (Option α) :=
+  match queryWf with
+  | none => .ok cfgWf
+  | some j =>
+    match num j with
+    | some w => .ok (some w)
+    | none => .error .build
+
+/-- single-via over a k-shortest-paths `underlying` whose forward run returned `fr`: the reverse run
+is refused with a build error (`require_forward`), which is not a limit, so the answer is the
+shortest route alone, backtracked from the FIRST tree of the forward run (an internal error when
+there is none), with the forward run's trees and iterations -/
+def shortestAlone (c : Config α) (k source t : Nat) (fr : AlgResult α) : KspOutcome α :=
+  match fr.trees.head? with
+  | none => .err .internal
+  | some t0 =>
+    match backtrack source t t0 (c.edges.length + 2) with
+    | .error e => .err e
+    | .ok tsp => .ok { trees := fr.trees, routes := [tsp].take k, iterations := fr.iterations }
+
+/-- a configured algorithm on a query.  A* / Dijkstra: the plain search.  A k-shortest-paths
+algorithm over A* / Dijkstra: `singleViaVertex` / `yensVertex`.  A k-shortest-paths algorithm as
+`underlying` of another is followed as far as the code path needs no second nested search:
+single-via runs the nested algorithm forwards, is refused the reverse run (`require_forward`) and
+returns the shortest route alone; Yen's algorithm returns the default result when the nested
+algorithm returned no route — its spur searches through a nested algorithm are NOT modelled
+(`.err (.panic "model: …")`; the harness does not generate such cases). -/
+def runAlgCfg [HasSqrt α] (num : Json → Option α) (c : Config α) (gcRev : List α)
+    (queryK queryWf : Option Json) :
+    AlgCfg α → Nat → Option Nat → List (List Nat) → List Nat → KspOutcome α
+  | .astar wf, source, target, scheds, _ =>
+    match effectiveWf num queryWf wf with
+    | .error e => .err e
+    | .ok w =>
+      match ({ c with wf := w } : Config α).runVertex source target (scheds.headD []) with
+      | .error e => .err e
+      | .ok r => .ok r
+  | .singleVia k under sim term, source, target, scheds, pops =>
+    let simf := fun a b => (sim.getD .acceptAll).test c.edges a b
+    match under with
+    | .astar wf =>
+      match target with
+      | none => .err .build
+      | some _ =>
+        if c.reverse then .err .build
+        else
+        match kspK queryK k with
+        | .error e => .err e
+        | .ok _ =>
+          match effectiveWf num queryWf wf with
+          | .error e => .err e
+          | .ok w =>
+            match singleViaVertex { c with wf := w } gcRev simf term k queryK source target
+                (scheds.headD []) (scheds.tail.headD []) pops with
+            | .error e => .err e
+            | .ok r => .ok r
+    | nested =>
+      match target with
+      | none => .err .build
+      | some t =>
+        if c.reverse then .err .build
+        else
+        match kspK queryK k with
+        | .error e => .err e
+        | .ok k' =>
+          match runAlgCfg num c gcRev queryK queryWf nested source target scheds pops with
+          | .err e => .err e
+          | .diverges w => .diverges w
+          | .ok fr => shortestAlone c k' source t fr
+  | .yens k under sim term, source, target, scheds, pops =>
+    let simf := fun a b => (sim.getD .acceptAll).test c.edges a b
+    match under with
+    | .astar wf =>
+      match target with
+      | none => .err .build
+      | some _ =>
+        if c.reverse then .err .build
+        else
+        match kspK queryK k with
+        | .error e => .err e
+        | .ok _ =>
+          match effectiveWf num queryWf wf with
+          | .error e => .err e
+          | .ok w => yensVertex { c with wf := w } simf term k queryK source target scheds
+    | nested =>
+      match target with
+      | none => .err .build
+      | some _ =>
+        if c.reverse then .err .build
+        else
+        match kspK queryK k with
+        | .error e => .err e
+        | .ok _ =>
+          match runAlgCfg num c gcRev queryK queryWf nested source target scheds pops with
+          | .err e => .err e
+          | .diverges w => .diverges w
+          | .ok fr =>
+            if fr.routes.isEmpty then .ok { trees := [], routes := [], iterations := 0 }
+            else .err (.panic "model: spur searches through a nested k-shortest-paths algorithm")
 
 end
 
